@@ -181,6 +181,23 @@ def r2(ctx):
       np = bool(gens) and all(any('notinself._pending_endpoints' in U(f_).replace(' ', '') for f_ in g.ifs) for g in gens)
     ctx.ob('C06.R2', c, 'the evicted member is not a pending one', np, 'victim %s chosen without a not-pending filter' % epn, whyc)
   ctx.floor('C06.R2', 'removal paths of _ContractAperture', n_rm, 1)
+  # expansion is unconditional once it is asked for: the only reason not to add a member is that no idle member exists
+  te = prog.func(A, 'ApertureBalancerSink._TryExpandAperture')
+  n_noadd = 0
+  for ev, ex in enum_paths(ctx, te):
+    if ex[0] != 'ret':
+      continue
+    adds = [e for e in ev if e.kind == 'call' and U(e.node.func).replace(' ', '') == 'super(ApertureBalancerSink,self)._AddSink']
+    if adds:
+      continue
+    n_noadd += 1
+    fs = closure(ev, len(ev))
+    empty = any(t_ in ('list(self._idle_endpoints)', 'self._idle_endpoints', 'len(self._idle_endpoints)>0', 'len(list(self._idle_endpoints))>0') and not v_ for t_, v_ in fs) or \
+      any(t_ in ('notlist(self._idle_endpoints)', 'notself._idle_endpoints', 'len(self._idle_endpoints)==0') and v_ for t_, v_ in fs)
+    ctx.ob('C06.R2', te, 'an expansion that was asked for is skipped only when no idle member exists', empty,
+           '_TryExpandAperture returns without adding a member on a path that has not found the idle set empty (facts %s)' % sorted(t_ for t_, v_ in fs)[:8],
+           'the active set grows while load >= max_load and idle members remain; down-member replacement and jitter rely on the same call')
+  ctx.floor('C06.R2', 'no-op paths of _TryExpandAperture', n_noadd, 1)
   a = prog.func(A, 'ApertureBalancerSink._AddSink')
   for ev, ex in enum_paths(ctx, a):
     fs = closure(ev, len(ev))
